@@ -23,6 +23,19 @@ CHECKS = {
              text="Generated fault positions; identity of the error checked with Arc::ptr_eq at the probe. One listed known finding (D6, combine!).", ref="DESIGN.md §4 C05"),
  "C17": dict(engine="world", technique="property-based testing: catch_unwind around every generated environment step over all scenario profiles",
              text="Every top-level step of every generated scenario runs under catch_unwind with a recording panic hook; any panic with conformant peers is a violation.", ref="DESIGN.md §4 C17"),
+ "C07": dict(engine="world", technique="model-based property testing: map/filter/scan/take/skip over one puppet checked after every upstream message against the list-function reference model, with positional (nesting) clauses",
+             text="Generated emissions, bursts, sink policies and parameters; after every upstream message the data at the probe must equal F(data sent so far) for the reference F, each output nested inside the input that caused it; completion clauses per operator. Push and pull modes are both generated and checked against the same model.", ref="DESIGN.md §4 C07"),
+ "C08": dict(engine="world", technique="model-based property testing: merge! over 1..4 puppets (sync and late greeters) against an arrival-order-union model with Pull fan-out accounting",
+             text="Generated interleavings of member greetings, data, completions and sink actions; oracle: greeting inside the first member greeting, probe data == arrival-order union, one Pull per stable live member per sink Pull, completion exactly inside the last member completion.", ref="DESIGN.md §4 C08"),
+ "C09": dict(engine="world", technique="model-based property testing: concat! over 1..4 puppets against a strictly-sequential subscription model with demand carry-over",
+             text="Oracle: member k+1 subscribed exactly inside member k's completion, data == concatenation, outstanding Pull re-issued in the next greeting, no Pull without demand, completion inside the last member's completion.", ref="DESIGN.md §4 C09"),
+ "C10": dict(engine="world", technique="model-based property testing: combine! (arity 1..3, unpacked tuples) against a latest-value model",
+             text="Oracle: greeting inside the last member greeting, no tuple before every slot is filled, then exactly one tuple per member datum equal to the model's latest vector and nested in that datum, Pull fan-out, completion inside the last end. The verdict stops at a member Error (that is C05/D6).", ref="DESIGN.md §4 C10"),
+ "C11": dict(engine="world", technique="model-based property testing: flatten over an outer puppet emitting inner puppets against a switch-state model {outer_alive, current}",
+             text="Oracle: inner subscribed inside the outer datum, exactly one greeting Pull, previous inner disposed exactly once on a switch, probe data == data of the current inner, completion only in the two sanctioned places, Pull routing inner-else-outer with causes attributed by nesting.", ref="DESIGN.md §4 C11"),
+ "C12": dict(engine="world", technique="model-based property testing: share over one puppet with 1..3 probes against a reference-count model",
+             text="Generated attach/detach/pull orders interleaved with source data/end/error; oracle: a fresh upstream exactly when a sink attaches while none is attached, never two live upstreams, fan-out equals what was emitted while attached, one upstream Pull per sink Pull, upstream disposed exactly in the detach that empties the list.", ref="DESIGN.md §4 C12",
+             note=WORLD_NOTE + " With 2+ probes the puppet never answers a Pull synchronously (the property's quantifier excludes nested fan-out; that case is generated for C02/C03 instead)."),
 }
 
 def main():
